@@ -112,6 +112,8 @@ def run(ctx, rep):
                        "Ok-capable exit at %s requires %s <= len%s" % (f.loc(b), lo, "" if hi is None else " <= %s" % hi), loc=f.loc(b))
     keystream(rep, prog)
     sealnonce(rep, prog)
+    n_roles = cm.role_consistency(rep, prog)
+    rep.floor("key-role call edges", n_roles, 40)
 
 
 def keystream(rep, prog):
